@@ -16,6 +16,7 @@ package vrt
 
 import (
 	"fmt"
+	"os"
 	"reflect"
 	"runtime"
 	"runtime/debug"
@@ -170,6 +171,7 @@ type World struct {
 	live     sync.WaitGroup
 	panics   []PanicInfo
 	closed   map[uintptr]bool
+	keep     []reflect.Value // closed channels are kept alive: their address must not be reused while it is a key of closed
 	res      *Result
 	finished bool
 	log      []string
@@ -185,6 +187,24 @@ var abortSentinel = abortT{}
 
 // Active reports whether a controlled execution is in progress.
 func Active() bool { return w != nil }
+
+// Watchdog limits (see Run) and what to do when they are exceeded.
+var (
+	StuckAfter        = stuckAfterEnv()
+	MemLimit   uint64 = 6 << 30
+	OnStuck           = func(reason string, choices []int) {
+		fmt.Fprintf(os.Stderr, "vrt: %s; choices so far %v\n", reason, choices)
+	}
+)
+
+func stuckAfterEnv() time.Duration {
+	if v := os.Getenv("VRT_STUCK_AFTER"); v != "" {
+		if d, err := time.ParseDuration(v); err == nil {
+			return d
+		}
+	}
+	return 180 * time.Second
+}
 
 // Base is the wall-clock instant corresponding to virtual time 0.
 var Base = time.Unix(1500000000, 0)
@@ -222,7 +242,36 @@ func Run(body func(), prefix []int, widths []int, cfg Config) *Result {
 	world.last = t
 	world.live.Add(1)
 	go world.threadMain(t, body, true)
+	// watchdog: code under test that loops (or allocates) without ever reaching
+	// a scheduling point cannot be stopped by the scheduler. Normal executions
+	// take well under a millisecond; after StuckAfter of wall-clock time, or
+	// MemLimit of heap, the process reports the execution as a livelock.
+	stop := make(chan struct{})
+	go func() {
+		tk := time.NewTicker(2 * time.Second)
+		defer tk.Stop()
+		start := time.Now()
+		for {
+			select {
+			case <-stop:
+				return
+			case <-tk.C:
+				var ms runtime.MemStats
+				runtime.ReadMemStats(&ms)
+				if time.Since(start) > StuckAfter || ms.HeapAlloc > MemLimit {
+					reason := fmt.Sprintf("livelock: the code under test ran for %v (heap %d MB) without reaching a scheduling point", time.Since(start).Round(time.Second), ms.HeapAlloc>>20)
+					choices := make([]int, 0, len(world.trace))
+					for _, p := range world.trace {
+						choices = append(choices, p.Choice)
+					}
+					OnStuck(reason, choices)
+					os.Exit(3)
+				}
+			}
+		}
+	}()
 	<-world.done
+	close(stop)
 	world.live.Wait()
 	w = nil
 	r := world.res
@@ -781,6 +830,7 @@ func Close(ch interface{}) {
 		}
 		wd.mu.Lock()
 		wd.closed[rv.Pointer()] = true
+		wd.keep = append(wd.keep, rv)
 		wd.mu.Unlock()
 	}
 	rv.Close()
@@ -1091,6 +1141,21 @@ func SendTo(ch interface{}, v interface{}) {
 
 func RecvFrom(ch interface{}) (interface{}, bool) {
 	h := BeforeRecv(ch)
+	v, ok := reflect.ValueOf(ch).Recv()
+	After(h)
+	if !ok {
+		return nil, false
+	}
+	return v.Interface(), true
+}
+
+// TryRecv is a non-blocking guarded receive for harness code: it succeeds
+// only if a value is buffered or a sender is blocked on the channel.
+func TryRecv(ch interface{}) (interface{}, bool) {
+	h, k := Select(true, RecvCase(ch))
+	if k != 0 {
+		return nil, false
+	}
 	v, ok := reflect.ValueOf(ch).Recv()
 	After(h)
 	if !ok {
